@@ -120,8 +120,8 @@ prop("C16", ["prims.go", "m_print.go", "c16.go"],
 prop("C17", ["prims.go", "c17.go"],
      [run("env", "harnessC17", ["automtls", "no-automtls"],
           quick={"bound": "one arbitrary host environment entry K=V (K, V arbitrary strings - the solver may choose K = PLUGIN_CLIENT_CERT etc.); AutoMTLS x GRPCBrokerMultiplex x SkipHostEnv; RunnerFunc capturing cmd.Env and cmd.Stdin"}),
-      run("env-world", "harnessC17world", ["cmd-launch", "runner-launch", "socket-group", "skip-host-env"], files=WORLD,
-          quick={"bound": "composed with a real plugin: launch {exec.Cmd under the real CmdRunner, RunnerFunc} x protocol x AutoMTLS x multiplexing x UnixSocketConfig.Group set/unset x SkipHostEnv x one arbitrary host variable; checked: cookie, port range, version list, client certificate, multiplexing flag, socket group, socket directory, stdin"})],
+      run("env-world", "harnessC17world", ["cmd-launch", "runner-launch", "socket-group", "skip-host-env", "cmd-env-preset"], files=WORLD,
+          quick={"bound": "composed with a real plugin: launch {exec.Cmd under the real CmdRunner, RunnerFunc} x protocol x AutoMTLS x multiplexing x UnixSocketConfig.Group set/unset x SkipHostEnv x one arbitrary host variable x (command launch) one arbitrary variable pre-set by the caller in cmd.Env; checked: cookie, port range, version list, client certificate, multiplexing flag, socket group, socket directory, stdin"})],
      [PROC, BUFIO, CTX, STR, "effective value of a variable in the child = last duplicate in cmd.Env (os/exec dedup rule)", "generateCert opaque"],
      ["os.Environ", "generateCert", "bufio", "context"],
      "more than one ambient host variable; cmd.Env pre-set by the caller; launch by exec.Cmd",
@@ -195,7 +195,7 @@ YAMUX = "yamux model: a session is a pair of FIFO queues of streams; Open enqueu
 prop("C18", ["prims.go", "m_print.go", "c18.go"],
      [run("lifecycle", "harnessC18", ["mux", "no-mux"],
           quick={"bound": "plugin side, gRPC, multiplexing on/off, no brokered listeners: a whole life cycle Serve -> host connects -> controller Shutdown -> Serve returns, against the ghost file system"}),
-      run("world", "harnessC18world", ["dispensed", "host-serves", "plugin-serves", "two-plugin-servers", "host-listener-left-open", "clean"], files=WORLD,
+      run("world", "harnessC18world", ["dispensed", "host-serves", "plugin-serves", "two-plugin-servers", "host-listener-left-open", "rpc-callback", "clean"], files=WORLD,
           quick={"params": {"trace": 0}, "bound": "host x plugin composed, net/rpc, gRPC and gRPC+mux, both launch methods; history: dispense and call; optionally a brokered server on the host dialled and called by the plugin; optionally one or two brokered servers on the plugin, each dialled and called by the host; optionally a host-side brokered listener still open at Kill (custom runner); then Kill and six seconds"})],
      [GHOSTFS, GRPCSEAM, YAMUX, EXIT] + WORLD_ASSUME,
      WORLD_STUBS,
